@@ -1,10 +1,11 @@
 """C05 - bin-covering results are valid covers that waste less than one bin."""
-from .. import core, scope, gen
+from .. import core, scope, gen, models
 from .common import *
 
 
 def run(ck):
     q = ck.quick()
+    models.heur_mc(ck, ["dec", "tt", "tq"], ["CovStepInv", "FinalOK"], maxn=4 if q else 5, maxv=8, minv=1)
     Q = scope.q_scope(ck, 5, 6, [4], minv=1) + scope.q_scope(ck, 4 if q else 6, 8, [6], minv=1) + scope.q_scope(ck, 4 if q else 5, 7, [5, 7], minv=1)
     ck.exhaustive = True
     groups = []
